@@ -49,8 +49,6 @@ def pin_mode(pin: _PinKey, mode: str) -> None:
 
     key = _normalise_pin(pin)
     _pin_modes[key] = mode
-    if mode == INPUT_PULLUP and key not in _digital_values:
-        _digital_values[key] = HIGH
 
 
 def digital_write(pin: _PinKey, value: Union[int, bool]) -> None:
